@@ -357,25 +357,37 @@ func writePairwiseAlignment(p string, w int, cPair chan alignPair, cWriteDone ch
 	var err error
 
 	if p == "stdout" {
-		for AP := range cPair {
-			vhook.Recv("sam.writePairwiseAlignment", AP.idx)
-			if !omitRef {
-				_, err = fmt.Fprintln(os.Stdout, ">"+AP.refname)
+		// write the pairs in the same order as they are in the input file
+		outputMap := make(map[int]alignPair)
+		counter := 0
+		for pair := range cPair {
+			vhook.Recv("sam.writePairwiseAlignment", pair.idx)
+			outputMap[pair.idx] = pair
+			for {
+				AP, ok := outputMap[counter]
+				if !ok {
+					break
+				}
+				if !omitRef {
+					_, err = fmt.Fprintln(os.Stdout, ">"+AP.refname)
+					if err != nil {
+						cErr <- err
+					}
+					_, err = fmt.Fprint(os.Stdout, wrap(string(AP.ref), w))
+					if err != nil {
+						cErr <- err
+					}
+				}
+				_, err = fmt.Fprintln(os.Stdout, ">"+AP.queryname)
 				if err != nil {
 					cErr <- err
 				}
-				_, err = fmt.Fprint(os.Stdout, wrap(string(AP.ref), w))
+				_, err = fmt.Fprint(os.Stdout, wrap(string(AP.query), w))
 				if err != nil {
 					cErr <- err
 				}
-			}
-			_, err = fmt.Fprintln(os.Stdout, ">"+AP.queryname)
-			if err != nil {
-				cErr <- err
-			}
-			_, err = fmt.Fprint(os.Stdout, wrap(string(AP.query), w))
-			if err != nil {
-				cErr <- err
+				delete(outputMap, counter)
+				counter++
 			}
 		}
 	} else {
